@@ -396,15 +396,16 @@ def _frame(e):
 
 def classify_ring(ring):
     """Classify a budget exceedance from the last processed internal events.
-    'activated-instant-end' = nothing but start/started/finished/failed/unhandled events of at most three
-    activated flows.  Sub-class 'internal-wait': every restarting flow reaches STARTED in each cycle (it passes a
+    'activated-instant-end' = nothing but start/started/finished/failed/unhandled events of a few activated flows
+    (the restarting flow itself, the flows it activates in every cycle, and an activated error watcher; a bound of
+    three missed `f0: activate f2; start f2; await f1 (f1: activate f3); <failing statement>` in the thorough tier).  Sub-class 'internal-wait': every restarting flow reaches STARTED in each cycle (it passes a
     match statement on an internal event that is already queued - the known F7b shape); 'before-first-match':
     a restarting flow never gets started (it ends before its first match statement - must not loop)."""
     names = [r[0] for r in ring]
     starts = [r for r in ring if r[0] == "StartFlow" and r[2]]
     allowed = ("StartFlow", "FlowStarted", "FlowFinished", "FlowFailed", "FinishFlow", "StopFlow", "ColangError", "UnhandledEvent", "BotIntentLog", "UserIntentLog", "BotActionLog", "UserActionLog")
     restarting = set(s[1] for s in starts)
-    if len(starts) >= 5 and len(restarting) <= 3 and all(n in allowed for n in names[-80:]):
+    if len(starts) >= 5 and len(restarting) <= 8 and all(n in allowed for n in names[-80:]):
         kinds = set(n for n in names if n in ("FlowFinished", "FlowFailed"))
         kind = "finish" if kinds == {"FlowFinished"} else ("fail" if kinds == {"FlowFailed"} else "mixed")
         started = set(r[1] for r in ring if r[0] == "FlowStarted")
